@@ -20,6 +20,7 @@ def _callee(it):
 ITEMS = location_types() + budget_types() + error_types() + [
     _callee([x for x in _sc.ITEMS if x.get('path') == 'fn decode_val'][0]),
     dict(src=B, path='fn decode_base64_yaml', props=['C06'],
+         bounded=dict(harness='bounded/base64.rs', items=[('src/base64.rs', '*')], subs=[(r'use crate::Location;', 'use super::shim::Location;'), (r'use crate::de::Error;', 'use super::shim::Error;')]),
          pre_rewrites=[
             (r'let cleaned: Vec<u8> = s\.bytes\(\)\.filter\(\|b\| !b\.is_ascii_whitespace\(\)\)\.collect\(\);',
              'let cleaned: Vec<u8> = bytes_without_ascii_whitespace(s);', 1, 'R8'),
